@@ -201,4 +201,120 @@ def enhanceKey (s : State) (f : Filter) (t : Nat) (name : Str) (labels : List (S
 def emit (s : State) (f : Filter) (t : Nat) (name : Str) (labels : List (Str × Str)) : List (Str × Str) :=
   (enhanceKey s f t name labels).getD labels
 
+/-! ### the process-wide `LinearObjectPool<Map>` behind `Labels::default()`, and spans that close
+
+`get_pool()` = `LinearObjectPool::new(Map::new, Map::clear)`.  `Labels::default()` pulls a map out of the pool
+(`pull_owned`: a free slot if there is one, otherwise a slot made by the `init` callback); `Drop for
+LinearOwnedReusable` runs the `reset` callback on the map and then frees the slot.  A `Labels` is dropped when
+the temporary of `on_record` goes out of scope and when the registry clears the extensions of a span that
+closed.  Everything above this section reads `Labels::from_record` as "starts from an empty map"; this section
+models what the code does — start from whatever the pool hands out — and `Props/C17` proves the two agree
+(`pooled_run_base`), the invariant being that every free map of the pool is empty.
+
+What is abstracted: WHICH free slot `LinearPage::alloc` hands out (lowest free bit of the first page with
+one); the free maps are kept as a list and the head is taken.  The theorems hold for every free map.
+Closed spans keep their number (numbers are creation order, the registry's id reuse is not modelled); their
+last map stays in `base.spans` as a tombstone that no operation reads again, because the registry only closes
+a span that is on no thread's stack, has no live child and no handle (`closable`). -/
+
+/-- `Map::new`: the pool's `init` callback -/
+def poolInit : FMap := []
+
+/-- `Map::clear`: the pool's `reset` callback -/
+def poolReset (_ : FMap) : FMap := []
+
+/-- `LinearObjectPool::pull_owned` -/
+def pull (pool : List FMap) : FMap × List FMap :=
+  match pool with
+  | [] => (poolInit, [])
+  | m :: r => (m, r)
+
+/-- `Drop for LinearOwnedReusable<Map>`: reset, then free the slot -/
+def release (pool : List FMap) (m : FMap) : List FMap := poolReset m :: pool
+
+/-- `Labels::from_record`: `Labels::default()` (= the pulled map `m0`), then one `Visit` call per field -/
+def fromRecordIn (m0 : FMap) (fields : List (Str × Value)) : FMap := fields.foldl visit m0
+
+/-- `on_new_span` on the pulled map -/
+def newSpanLabelsIn (m0 : FMap) (fields : List (Str × Value)) (parent : Option FMap) : FMap :=
+  match parent with
+  | some pl => extendFromLabels (fromRecordIn m0 fields) pl
+  | none => fromRecordIn m0 fields
+
+structure PState where
+  base : State := {}
+  pool : List FMap := []               -- the free maps of the pool, as `reset` left them
+  parents : List (Option Nat) := []    -- span number ↦ the parent `Registry::new_span` resolved
+  closed : List Nat := []              -- spans the registry has closed
+
+inductive POp
+  | base (op : Op)
+  | close (id : Nat)                   -- the last reference to span `id` goes away: `Registry::try_close`
+  deriving Repr
+
+/-- `MetricsLayer::on_new_span` with the pool -/
+def pOnNewSpan (p : PState) (t : Nat) (parent : Parent) (fields : List (Str × Value)) : PState :=
+  let par := resolveParent p.base t parent
+  { p with
+    base := { p.base with spans := p.base.spans ++ [newSpanLabelsIn (pull p.pool).1 fields (parentLabels p.base par)] }
+    pool := (pull p.pool).2
+    parents := p.parents ++ [par] }
+
+/-- `MetricsLayer::on_record` with the pool: the temporary `Labels::from_record(values)` is pulled, merged into
+    the span's map and dropped at the end of the function -/
+def pOnRecord (p : PState) (id : Nat) (fields : List (Str × Value)) : PState :=
+  let tmp := fromRecordIn (pull p.pool).1 fields
+  { p with
+    base := { p.base with spans := modifyAt p.base.spans id (fun m => extendFromLabelsOverwrite m tmp) }
+    pool := release (pull p.pool).2 tmp }
+
+/-- the registry clears the extensions of the closed span, which drops its `Labels` -/
+def pClose (p : PState) (id : Nat) : PState :=
+  match p.base.spans[id]? with
+  | some m => if p.closed.contains id then p else { p with pool := release p.pool m, closed := id :: p.closed }
+  | none => p
+
+def pstep (p : PState) : POp → PState
+  | .base (.newSpan t par fields) => pOnNewSpan p t par fields
+  | .base (.record _ id fields) => pOnRecord p id fields
+  | .base op => { p with base := step p.base op }
+  | .close id => pClose p id
+
+def prun (p : PState) (ops : List POp) : PState := ops.foldl pstep p
+
+/-- the subscriber calls of a program, without the closings -/
+def baseOps : List POp → List Op
+  | [] => []
+  | .base op :: r => op :: baseOps r
+  | .close _ :: r => baseOps r
+
+/-- what keeps a span alive in the registry besides its handle: an entry on the stack of one of the threads
+    `0 .. nthreads-1`, or a child that has not closed -/
+def pinned (p : PState) (nthreads : Nat) (id : Nat) : Bool :=
+  (List.range nthreads).any (fun t => (p.base.stacks t).any (fun c => c.id == id))
+  || (List.range p.parents.length).any (fun j => p.parents[j]? == some (some id) && !p.closed.contains j)
+
+/-- `dispatch.downcast_ref::<MetricsLayer>()?` in `enhance_key`: with a subscriber that has no `MetricsLayer`
+    the key is handed on as it is -/
+def emitCfg (hasLayer : Bool) (s : State) (f : Filter) (t : Nat) (name : Str) (labels : List (Str × Str)) :
+    List (Str × Str) :=
+  if hasLayer then emit s f t name labels else labels
+
+/-- `Registry::new_span` under a subscriber WITHOUT a `MetricsLayer`: the span exists (it gets a number, it can
+    be entered and be a parent) but no `Labels` extension is ever made for it and the pool is not touched; the
+    `[]` in `base.spans` only keeps the numbering (nothing reads it: `emitCfg false`) -/
+def pNewSpanNoLayer (p : PState) (t : Nat) (parent : Parent) : PState :=
+  { p with
+    base := { p.base with spans := p.base.spans ++ [[]] }
+    parents := p.parents ++ [resolveParent p.base t parent] }
+
+/-- the end of a subscriber's life: every span still open is dropped, its `Labels` goes back to the pool, which
+    outlives the subscriber (it is a process-wide static) -/
+def poolAfterDrop (p : PState) : List FMap :=
+  (List.range p.base.spans.length).foldl
+    (fun pool i => if p.closed.contains i then pool else
+      match p.base.spans[i]? with
+      | some m => release pool m
+      | none => pool) p.pool
+
 end MetricsVerif.Tracing
